@@ -243,3 +243,16 @@ Proof.
   - apply program_ok_cr_of_rest; [exact (parse_program_c_wf _ _ _ H)|exact Hok|].
     exact (parsed_program_comments_ok_cr text forest p H Hn Hcr).
 Qed.
+
+(* ------------------------------------------------------------------ witnesses at the scanner level *)
+Definition trailing_cr_comment : string := String "/" (String "/" (String "a" (String CRc ""))).
+Definition bare_cr_comment : string := String "/" (String "/" (String " " (String "a" (String CRc (String "b" ""))))).
+Lemma comment_trailing_cr_refuted :
+  comment_ok_cr trailing_cr_comment = false /\
+  scan_comments (trailing_cr_comment +++ nl) = [String "/" (String "/" (String "a" ""))] /\
+  scan_comments (trailing_cr_comment +++ nl) <> [trailing_cr_comment].
+Proof. split; [reflexivity|]. split; [reflexivity|]. discriminate. Qed.
+Lemma comment_bare_cr_ok :
+  comment_ok_cr bare_cr_comment = true /\ comment_ok bare_cr_comment = false /\
+  scan_comments (bare_cr_comment +++ nl) = [bare_cr_comment].
+Proof. split; [reflexivity|]. split; reflexivity. Qed.
